@@ -390,14 +390,18 @@ theorem gen_init_modelOK (hd : d.WF) (hne : d.attrs ≠ []) (hcl : ∀ c ∈ cli
   pot_ok := hpots.pot_ok
   nonneg := hpots.nonneg
 
-/-- **EXACT INFERENCE, END TO END, FOR THE GENERATED CODE.**  For every well-formed non-empty domain, every list of cliques inside
+/-- the field identity behind `gen_exact_inference_end_to_end`, for EVERY `total : K` — no sign hypothesis: at `LogOf K` the
+identity is plain field algebra; only `0 < total` corresponds to the code (`np.log(total)` is `nan` for a negative total, where the
+model returns negative "marginals").  Kept for C08E, whose statement carries the sign of `total` clause by clause.
+
+Original wording: **EXACT INFERENCE, END TO END, FOR THE GENERATED CODE.**  For every well-formed non-empty domain, every list of cliques inside
 it (each duplicate-free; duplicated, nested, permuted, cyclic or disconnected lists allowed), every form of `elimination_order`
 (a permutation / None / an int with any draws), every admissible behaviour of `find_cliques`, `minimum_spanning_tree`,
 `topological_sort`, `dfs_preorder_nodes`, `tuple(set)` and `np.random.choice`, every nonnegative potential vector over the cliques of
 the generated model and every total: the tables returned by the GENERATED `belief_propagation` run on the `cliques`, `message_order`
 and `total` stored by the GENERATED `__init__` are `total · marginal / Z` of the product of the potentials (the caller's `total`),
 laid out over the potential's attributes -/
-theorem gen_exact_inference_end_to_end (hd : d.WF) (hne : d.attrs ≠ [])
+theorem gen_exact_inference_anyTotal (hd : d.WF) (hne : d.attrs ≠ [])
     (hcl : ∀ c ∈ cliques, c.Nodup ∧ ∀ a ∈ c, a ∈ d.attrs) (hadm : Admissible nx d cliques mode)
     (pots : CliqueVec (LogOf K)) (hpots : PotsOK d (genInit nx d cliques total mode).cliques pots)
     (hZ : partition d pots ≠ 0) (c : Clique) (hc : c ∈ (genInit nx d cliques total mode).cliques)
@@ -408,9 +412,29 @@ theorem gen_exact_inference_end_to_end (hd : d.WF) (hne : d.attrs ≠ [])
         (genInit nx d cliques total mode).total).get c).sem σ).v
       = total.v * marginal d pots c σ / partition d pots := by
   have hok := gen_init_modelOK nx d cliques mode total hd hne hcl hadm pots hpots
-  have h := C01.GMG.gen_bp_marginals d _ _ _ pots hok (genInit nx d cliques total mode).total hZ c hc σ hσ
+  have h := C01.GMG.gen_bp_marginals_anyTotal d _ _ _ pots hok (genInit nx d cliques total mode).total hZ c hc σ hσ
   rw [gen_init_total] at h ⊢
   exact h
+
+/-- **EXACT INFERENCE, END TO END, FOR THE GENERATED CODE.**  For every well-formed non-empty domain, every list of cliques inside
+it (each duplicate-free; duplicated, nested, permuted, cyclic or disconnected lists allowed), every form of `elimination_order`
+(a permutation / None / an int with any draws), every admissible behaviour of `find_cliques`, `minimum_spanning_tree`,
+`topological_sort`, `dfs_preorder_nodes`, `tuple(set)` and `np.random.choice`, every nonnegative potential vector over the cliques of
+the generated model and every POSITIVE total (`htot`; see `C01.bp_marginals` — the hypothesis restricts the statement to
+the totals on which the model reads the code, the proof does not use it): the tables returned by the GENERATED `belief_propagation` run on the `cliques`, `message_order`
+and `total` stored by the GENERATED `__init__` are `total · marginal / Z` of the product of the potentials (the caller's `total`),
+laid out over the potential's attributes -/
+theorem gen_exact_inference_end_to_end (hd : d.WF) (hne : d.attrs ≠ [])
+    (hcl : ∀ c ∈ cliques, c.Nodup ∧ ∀ a ∈ c, a ∈ d.attrs) (hadm : Admissible nx d cliques mode)
+    (pots : CliqueVec (LogOf K)) (hpots : PotsOK d (genInit nx d cliques total mode).cliques pots)
+    (hZ : partition d pots ≠ 0) (_htot : 0 < total.v) (c : Clique) (hc : c ∈ (genInit nx d cliques total mode).cliques)
+    (σ : Attr → Nat) (hσ : d.Valid σ) :
+    ((GMG.beliefPropagation (genInit nx d cliques total mode).cliques (genInit nx d cliques total mode).message_order pots
+        (genInit nx d cliques total mode).total).get c).dom.attrs = (pots.get c).dom.attrs ∧
+    (((GMG.beliefPropagation (genInit nx d cliques total mode).cliques (genInit nx d cliques total mode).message_order pots
+        (genInit nx d cliques total mode).total).get c).sem σ).v
+      = total.v * marginal d pots c σ / partition d pots :=
+  gen_exact_inference_anyTotal nx d cliques mode total hd hne hcl hadm pots hpots hZ c hc σ hσ
 
 /-- **the partition function, end to end**: the generated `belief_propagation(potentials, logZ=True)` on the generated `__init__`'s
 fields returns `log Z` of the product -/
@@ -426,7 +450,7 @@ the returned table of ANY such `n` over the attributes of `n` outside `c0` gives
 theorem gen_input_clique_marginal_end_to_end (hd : d.WF) (hne : d.attrs ≠ [])
     (hcl : ∀ c ∈ cliques, c.Nodup ∧ ∀ a ∈ c, a ∈ d.attrs) (hadm : Admissible nx d cliques mode)
     (pots : CliqueVec (LogOf K)) (hpots : PotsOK d (genInit nx d cliques total mode).cliques pots)
-    (hZ : partition d pots ≠ 0) (c0 : Clique) (hc0 : c0 ∈ cliques) (σ : Attr → Nat) (hσ : d.Valid σ) :
+    (hZ : partition d pots ≠ 0) (htot : 0 < total.v) (c0 : Clique) (hc0 : c0 ∈ cliques) (σ : Attr → Nat) (hσ : d.Valid σ) :
     (∃ n ∈ (genInit nx d cliques total mode).cliques, ∀ a ∈ c0, a ∈ n) ∧
     ∀ n ∈ (genInit nx d cliques total mode).cliques, (∀ a ∈ c0, a ∈ n) →
       sumOver d (n.filter (fun a => !c0.contains a)) σ (fun τ =>
@@ -436,7 +460,7 @@ theorem gen_input_clique_marginal_end_to_end (hd : d.WF) (hne : d.attrs ≠ [])
   refine ⟨gen_init_covers_input nx d cliques total mode hd hne hcl hadm c0 hc0, fun n hn hsub => ?_⟩
   obtain ⟨hnn, hna⟩ := (gen_init_cliques_ok nx d cliques total mode hd hne hcl hadm).2.2 n hn
   rw [sumOver_congr_valid d hd _ σ _ (fun τ => total.v * marginal d pots n τ / partition d pots) hσ
-    (fun τ hτ => (gen_exact_inference_end_to_end nx d cliques mode total hd hne hcl hadm pots hpots hZ n hn τ hτ).2)]
+    (fun τ hτ => (gen_exact_inference_end_to_end nx d cliques mode total hd hne hcl hadm pots hpots hZ htot n hn τ hτ).2)]
   have hsum : sumOver d (n.filter (fun a => !c0.contains a)) σ (fun τ => marginal d pots n τ) = marginal d pots c0 σ := by
     unfold marginal
     apply Coherent.marg_merge d hd (joint pots) n c0 _ (hnn.filter _)
@@ -457,14 +481,19 @@ theorem gen_input_clique_marginal_end_to_end (hd : d.WF) (hne : d.attrs ≠ [])
 
 /-- **independence of the elimination order and of the library's choices, end to end**: two constructions from the same arguments —
 with different forms / values of `elimination_order` and different admissible outcomes of every networkx / set-iteration / random
-call (hence possibly different cliques, trees and schedules) — carrying potentials with the same product give, on every INPUT
-clique, the same marginal -/
+call (hence possibly different cliques, trees and schedules) — carrying potentials whose products agree on every IN-RANGE assignment
+up to a constant factor `k ≠ 0` (`k = 1`: the same distribution laid out on the two models; `k ≠ 1`: a constant added to a
+log-space potential) give, on every INPUT clique, the same marginal.
+
+The products are compared on `d.Valid τ` only (C01 `bp_tree_indep`): out of range every lookup reads the default `⟨1⟩`, so the
+earlier unrestricted hypothesis `∀ τ, joint pots τ = joint pots' τ` could only be met by re-orderings of the same tables. -/
 theorem gen_bp_order_indep_end_to_end (nx' : Nx) (mode' : ElimMode) (hd : d.WF) (hne : d.attrs ≠ [])
     (hcl : ∀ c ∈ cliques, c.Nodup ∧ ∀ a ∈ c, a ∈ d.attrs)
     (hadm : Admissible nx d cliques mode) (hadm' : Admissible nx' d cliques mode')
     (pots pots' : CliqueVec (LogOf K)) (hpots : PotsOK d (genInit nx d cliques total mode).cliques pots)
     (hpots' : PotsOK d (genInit nx' d cliques total mode').cliques pots')
-    (hjoint : ∀ τ, joint pots τ = joint pots' τ) (hZ : partition d pots ≠ 0)
+    (k : K) (hk : k ≠ 0) (hjoint : ∀ τ, d.Valid τ → joint pots τ = k * joint pots' τ) (hZ : partition d pots ≠ 0)
+    (htot : 0 < total.v)
     (c0 : Clique) (hc0 : c0 ∈ cliques) (σ : Attr → Nat) (hσ : d.Valid σ)
     (n : Clique) (hn : n ∈ (genInit nx d cliques total mode).cliques) (hsub : ∀ a ∈ c0, a ∈ n)
     (n' : Clique) (hn' : n' ∈ (genInit nx' d cliques total mode').cliques) (hsub' : ∀ a ∈ c0, a ∈ n') :
@@ -474,13 +503,20 @@ theorem gen_bp_order_indep_end_to_end (nx' : Nx) (mode' : ElimMode) (hd : d.WF) 
       = sumOver d (n'.filter (fun a => !c0.contains a)) σ (fun τ =>
         (((GMG.beliefPropagation (genInit nx' d cliques total mode').cliques (genInit nx' d cliques total mode').message_order pots'
           (genInit nx' d cliques total mode').total).get n').sem τ).v) := by
-  have hpart : partition d pots = partition d pots' := by
-    unfold partition sumOver; simp only [hjoint]
-  have hmarg : marginal d pots c0 σ = marginal d pots' c0 σ := by
-    unfold marginal sumOver; simp only [hjoint]
-  rw [(gen_input_clique_marginal_end_to_end nx d cliques mode total hd hne hcl hadm pots hpots hZ c0 hc0 σ hσ).2 n hn hsub,
-    (gen_input_clique_marginal_end_to_end nx' d cliques mode' total hd hne hcl hadm' pots' hpots' (hpart ▸ hZ) c0 hc0 σ hσ).2
-      n' hn' hsub', hpart, hmarg]
+  have h0 : d.Valid (fun _ => 0) := fun p hp => Nat.zero_lt_of_lt (hσ p hp)
+  have hpart : partition d pots = k * partition d pots' := by
+    unfold partition
+    rw [← sumOver_mul_left]
+    exact sumOver_congr_valid d hd _ _ _ _ h0 hjoint
+  have hmarg : marginal d pots c0 σ = k * marginal d pots' c0 σ := by
+    unfold marginal
+    rw [← sumOver_mul_left]
+    exact sumOver_congr_valid d hd _ _ _ _ hσ hjoint
+  have hZ' : partition d pots' ≠ 0 := by
+    intro h; apply hZ; rw [hpart, h, mul_zero]
+  rw [(gen_input_clique_marginal_end_to_end nx d cliques mode total hd hne hcl hadm pots hpots hZ htot c0 hc0 σ hσ).2 n hn hsub,
+    (gen_input_clique_marginal_end_to_end nx' d cliques mode' total hd hne hcl hadm' pots' hpots' hZ' htot c0 hc0 σ hσ).2
+      n' hn' hsub', hpart, hmarg, mul_left_comm, mul_div_mul_left _ _ hk]
 
 /-- the same on a clique the two models share: the two tables agree cell by cell -/
 theorem gen_bp_order_indep_shared (nx' : Nx) (mode' : ElimMode) (hd : d.WF) (hne : d.attrs ≠ [])
@@ -488,20 +524,28 @@ theorem gen_bp_order_indep_shared (nx' : Nx) (mode' : ElimMode) (hd : d.WF) (hne
     (hadm : Admissible nx d cliques mode) (hadm' : Admissible nx' d cliques mode')
     (pots pots' : CliqueVec (LogOf K)) (hpots : PotsOK d (genInit nx d cliques total mode).cliques pots)
     (hpots' : PotsOK d (genInit nx' d cliques total mode').cliques pots')
-    (hjoint : ∀ τ, joint pots τ = joint pots' τ) (hZ : partition d pots ≠ 0)
+    (k : K) (hk : k ≠ 0) (hjoint : ∀ τ, d.Valid τ → joint pots τ = k * joint pots' τ) (hZ : partition d pots ≠ 0)
+    (htot : 0 < total.v)
     (c : Clique) (hc : c ∈ (genInit nx d cliques total mode).cliques) (hc' : c ∈ (genInit nx' d cliques total mode').cliques)
     (σ : Attr → Nat) (hσ : d.Valid σ) :
     (((GMG.beliefPropagation (genInit nx d cliques total mode).cliques (genInit nx d cliques total mode).message_order pots
         (genInit nx d cliques total mode).total).get c).sem σ).v
       = (((GMG.beliefPropagation (genInit nx' d cliques total mode').cliques (genInit nx' d cliques total mode').message_order pots'
         (genInit nx' d cliques total mode').total).get c).sem σ).v := by
-  have hpart : partition d pots = partition d pots' := by
-    unfold partition sumOver; simp only [hjoint]
-  have hmarg : marginal d pots c σ = marginal d pots' c σ := by
-    unfold marginal sumOver; simp only [hjoint]
-  rw [(gen_exact_inference_end_to_end nx d cliques mode total hd hne hcl hadm pots hpots hZ c hc σ hσ).2,
-    (gen_exact_inference_end_to_end nx' d cliques mode' total hd hne hcl hadm' pots' hpots' (hpart ▸ hZ) c hc' σ hσ).2,
-    hpart, hmarg]
+  have h0 : d.Valid (fun _ => 0) := fun p hp => Nat.zero_lt_of_lt (hσ p hp)
+  have hpart : partition d pots = k * partition d pots' := by
+    unfold partition
+    rw [← sumOver_mul_left]
+    exact sumOver_congr_valid d hd _ _ _ _ h0 hjoint
+  have hmarg : marginal d pots c σ = k * marginal d pots' c σ := by
+    unfold marginal
+    rw [← sumOver_mul_left]
+    exact sumOver_congr_valid d hd _ _ _ _ hσ hjoint
+  have hZ' : partition d pots' ≠ 0 := by
+    intro h; apply hZ; rw [hpart, h, mul_zero]
+  rw [(gen_exact_inference_end_to_end nx d cliques mode total hd hne hcl hadm pots hpots hZ htot c hc σ hσ).2,
+    (gen_exact_inference_end_to_end nx' d cliques mode' total hd hne hcl hadm' pots' hpots' hZ' htot c hc' σ hσ).2,
+    hpart, hmarg, mul_left_comm, mul_div_mul_left _ _ hk]
 
 end endToEnd
 
@@ -623,7 +667,7 @@ theorem ex_potsOK (total : LogOf ℚ) : PotsOK exD (genInit exNx exD exCl total 
 /-- the end-to-end theorem applies: the generated code returns `100 · marginal / Z` on the example, under each model clique -/
 example (c : Clique) (hc : c ∈ (genInit exNx exD exCl (⟨100⟩ : LogOf ℚ) (.given exElim)).cliques) :=
   gen_exact_inference_end_to_end exNx exD exCl (.given exElim) (⟨100⟩ : LogOf ℚ) (by decide) (by decide) (by decide)
-    ex_admissible exPots (ex_potsOK _) C01.exZ_ne c hc (fun _ => 1) C01.exValid
+    ex_admissible exPots (ex_potsOK _) C01.exZ_ne (by norm_num) c hc (fun _ => 1) C01.exValid
 
 example := gen_logZ_end_to_end exNx exD exCl (.given exElim) (⟨100⟩ : LogOf ℚ) (by decide) (by decide) (by decide)
     ex_admissible exPots (ex_potsOK _)
@@ -666,7 +710,8 @@ theorem ex_potsOK' (total : LogOf ℚ) : PotsOK exD (genInit exNx' exD exCl tota
 marginal on the input clique `("a","b")` -/
 example := gen_bp_order_indep_end_to_end exNx exD exCl (.given exElim) (⟨100⟩ : LogOf ℚ) exNx' .none (by decide) (by decide)
     (by decide) ex_admissible ex_admissible' exPots exPots.reverse (ex_potsOK _) (ex_potsOK' _)
-    (fun τ => by unfold joint; rw [List.map_reverse, List.prod_reverse]) C01.exZ_ne ["a", "b"] (by decide) (fun _ => 1) C01.exValid
+    1 one_ne_zero (fun τ _ => by unfold joint; rw [List.map_reverse, List.prod_reverse, one_mul]) C01.exZ_ne (by norm_num)
+    ["a", "b"] (by decide) (fun _ => 1) C01.exValid
     ["a", "b"] (by decide) (fun _ h => h) ["a", "b"] (by decide) (fun _ h => h)
 
 /-- the generated `__init__` computes: the fields of the example model -/
